@@ -17,10 +17,14 @@
 
    (5) is the terminal-state form for at least one pool thread: only the external events are assumed fired; that every oneshot
    cell of every call gets fired (queue_ready sent, task_finished sent or dropped) is part of the conclusion.
-   What the statements do NOT say: (5) for ZERO pool threads (the owner's polls alone running the queue) is not proved in this
-   layer - layer SyncFut keeps C08_5_await_to_completion_without_pool for its abstract queue; that every fair schedule reaches a
-   terminal state is not stated.  GStart / GFinish of the slot job are the first / last step of its poll by the queue runner;
-   the user future's value is not modelled (the SchedulerFuture carries the slot job's id, C07_value). *)
+   (5) for any pool size, ZERO included: [C08_5_terminal_any_pool] (a terminal state with the external events fired has every actor
+   done, parked on a SchedulerFuture, or owning a SyncFuture whose slot job has not sent queue_ready) and
+   [C08_5_dropping_caller_finishes] (a caller that never awaits a future to completion - future_sync polled n times and dropped, sync,
+   desync, ... - finishes its script).
+   What the statements do NOT say: that a caller which AWAITS a future_sync with no pool thread finishes (the owner's polls alone
+   running the queue): not proved in this layer - layer SyncFut keeps C08_5_await_to_completion_without_pool for its abstract queue;
+   that every fair schedule reaches a terminal state is not stated.  GStart / GFinish of the slot job are the first / last step of
+   its poll by the queue runner; the user future's value is not modelled (the SchedulerFuture carries the slot job's id, C07_value). *)
 From stdpp Require Import list numbers option.
 From L2 Require Import Model Base Term YDefs YThm Main Refute.
 
@@ -39,6 +43,10 @@ Theorem C08_4_field_order_needed_refuted_L2 : C08_4_swapped_field_order_violatio
 Proof. exact C08_4_field_order_needed_refuted. Qed.
 Theorem C08_5_releases_the_queue_L2 : C08_5_releases_the_queue.
 Proof. exact C08_5_main. Qed.
+Theorem C08_5_terminal_any_pool_L2 : C08_5_terminal_any_pool.
+Proof. exact C08_5_terminal_any_pool_main. Qed.
+Theorem C08_5_dropping_caller_finishes_L2 : C08_5_dropping_caller_finishes.
+Proof. exact C08_5_dropping_caller_finishes_main. Qed.
 Print Assumptions C08_1_runs_only_when_awaited_L2.
 Print Assumptions C08_2_only_inside_its_exclusive_slot_L2.
 Print Assumptions C08_3_result_L2.
@@ -46,3 +54,5 @@ Print Assumptions C08_4_clean_cancellation_L2.
 Print Assumptions C08_4_drop_never_blocks_L2.
 Print Assumptions C08_4_field_order_needed_refuted_L2.
 Print Assumptions C08_5_releases_the_queue_L2.
+Print Assumptions C08_5_terminal_any_pool_L2.
+Print Assumptions C08_5_dropping_caller_finishes_L2.
